@@ -10,7 +10,9 @@ def monitor(ctx, spec, r):
     cfg = spec.get("cfg") or {}
     sig = dict(optimizer=name, population=cfg.get("population"), replacement=cfg.get("replacement"))
     if r["exc"] is not None:
-        sig.update(kind="raises", exception=r["exc"][0], phase=r.get("phase"))
+        done = list(getattr(r.get("opt"), "pos_l", None) or [])
+        sig.update(kind="raises", exception=r["exc"][0], phase=r.get("phase"),
+                   exhausted=(gen.space_exhausted(spec, done) and spec.get("feasible") is None))
         ctx.violation(sig, dict(spec=dunit.spec_full(spec), traceback=r["exc"][2]),
                       "%s: search() raised %s: %s" % (name, r["exc"][0], r["exc"][1]))
         return
